@@ -334,7 +334,9 @@ func main() {
 					path := filepath.Join(outDir, fmt.Sprintf("cex_%d.json", cexN))
 					cx := writeCex(path, *prop, r, ob)
 					note := ""
-					if cx.Ghost {
+					if ob.Kind == "leak" {
+						note = " replay=none(two-run witness: the model gives equal public inputs and two secrets under which the leak site differs)"
+					} else if cx.Ghost {
 						note = " replay=none(obligation over ghost parameters / uninterpreted symbols: the solver model of the abstract obligation is the finding; no native input exists for it)"
 					} else if replayedRun[r] {
 						note = " replay=not-repeated(an earlier counterexample of this harness run was already reproduced natively)"
